@@ -41,7 +41,7 @@ class Grid:
         return self.Ls[j]
 
 
-def mapset(ctx, grid, charts, selectable=True, title="Song"):
+def mapset(ctx, grid, charts, selectable=True, title="Song", bpm_order=None):
     """charts: list of (keys, objects) with objects = [(kind, col, beat[, end_beat])]."""
     C = classes("sm")
     sms = C["MapSet"]()
@@ -61,7 +61,8 @@ def mapset(ctx, grid, charts, selectable=True, title="Song"):
                 else:
                     items.append(C[cls](grid.t(o[2]), o[1]))
             setattr(m, attr, C[cls + "List"](items))
-        m.bpms = C["BpmList"]([C["Bpm"](grid.starts[i], 60000 / grid.Ls[i]) for i in range(len(grid.beats))])
+        rows = [C["Bpm"](grid.starts[i], 60000 / grid.Ls[i]) for i in range(len(grid.beats))]
+        m.bpms = C["BpmList"]([rows[i] for i in bpm_order] if bpm_order else rows)
         maps.append(m)
     sms.maps = maps
     sms.title, sms.subtitle, sms.artist, sms.title_translit, sms.artist_translit = title, "sub", "art", "tt", "at"
@@ -143,11 +144,11 @@ def check_written(ctx, label, sms, text, exact):
     return d
 
 
-def ob_write(beats, charts, ctx, selectable=True, rate=False, over=False):
+def ob_write(beats, charts, ctx, selectable=True, rate=False, over=False, bpm_order=None):
     from reamber.sm import SMMapSet
 
     grid = Grid(ctx, beats)
-    sms = mapset(ctx, grid, charts, selectable=selectable)
+    sms = mapset(ctx, grid, charts, selectable=selectable, bpm_order=bpm_order)
     if rate:
         r = ctx.real("r")
         ctx.assume(r > 0)
@@ -265,6 +266,9 @@ def obligations(tier, seed):
         obs.append(Obligation("C03/write/K%d/over-384-rows/tempo=one" % keys, partial(ob_write, [0], [(keys, objs_over(keys))], over=True),
                               bound="%d keys, a measure mixing 7ths, 9ths and 64ths of a beat (needs more than 384 rows): compared within 1/96 beat" % keys))
     obs.append(Obligation("C03/write/two-charts", partial(ob_write, [0, 4], [(4, objs_basic(4)), (6, objs_late(6))]), bound="two charts (4 and 6 keys) sharing one tempo list"))
+    for order, tn in (((1, 0), "line"), ((2, 0, 1), "two-lines"), ((1, 0), "mid")):
+        obs.append(Obligation("C03/write/tempo-rows=%s/tempo=%s" % ("".join(map(str, order)), tn), partial(ob_write, tempo_sets[tn], [(4, objs_basic(4))], bpm_order=order),
+                              bound="tempo list rows stored in order %s (unsorted list); tempo %s" % (order, tn)))
     obs.append(Obligation("C03/write/selectable-false", partial(ob_write, [0], [(4, objs_basic(4))], selectable=False), bound="selectable=False"))
     for tname in ("one", "line", "mid"):
         obs.append(Obligation("C03/write/rated/tempo=%s" % tname, partial(ob_write, tempo_sets[tname], [(4, objs_basic(4))], rate=True), bound="mapset after rate(r), r>0 symbolic; tempo %s" % tname))
